@@ -6,6 +6,7 @@ import (
 	"go/parser"
 	"go/token"
 	"path/filepath"
+	"strings"
 )
 
 // Facts for C13 (handshake gate): QUIC version numbers, the undecryptable-packet queue bound and the
@@ -65,6 +66,19 @@ func init() {
 			w.P("def %sExpr : String := %q", f.lean, arg)
 			w.P("def %s : Bool := %v", f.lean, arg == "true")
 		}
+		// the same two functions: which channels does `case <-ctx.Done():` wait on after conn.destroy(nil)?
+		for _, f := range []struct{ file, lean string }{{"transport.go", "cancelWaitTransport"}, {"u_transport.go", "cancelWaitUTransport"}} {
+			chans, err := cancelWaitChans(c, filepath.Join(c.Repo, f.file))
+			if err != nil {
+				return err
+			}
+			q := make([]string, len(chans))
+			for i, x := range chans {
+				q[i] = fmt.Sprintf("%q", x)
+			}
+			w.P("/-- %s doDial, `case <-ctx.Done():` — channels received from while waiting for the run goroutine -/", f.file)
+			w.P("def %s : List String := [%s]", f.lean, strings.Join(q, ", "))
+		}
 		return nil
 	})
 }
@@ -119,4 +133,88 @@ func recreateArg(c *Ctx, file string) (string, error) {
 		return "", fmt.Errorf("%s: expected exactly one recursive doDial call in doDial, found %d", file, len(out))
 	}
 	return out[0], nil
+}
+
+// cancelWaitChans lists the channels the `case <-ctx.Done():` clause of doDial's select receives from
+// (comm clauses of a nested select, or plain receive statements), in source order.
+func cancelWaitChans(c *Ctx, file string) ([]string, error) {
+	af, err := parser.ParseFile(c.Fset, file, nil, 0)
+	if err != nil {
+		return nil, err
+	}
+	var out []string
+	found := 0
+	recvChan := func(e ast.Expr) string {
+		if u, ok := e.(*ast.UnaryExpr); ok && u.Op == token.ARROW {
+			if id, ok := u.X.(*ast.Ident); ok {
+				return id.Name
+			}
+			return "<expr>"
+		}
+		return ""
+	}
+	for _, d := range af.Decls {
+		fd, ok := d.(*ast.FuncDecl)
+		if !ok || fd.Name.Name != "doDial" || fd.Body == nil {
+			continue
+		}
+		ast.Inspect(fd.Body, func(nd ast.Node) bool {
+			cc, ok := nd.(*ast.CommClause)
+			if !ok || cc.Comm == nil {
+				return true
+			}
+			es, ok := cc.Comm.(*ast.ExprStmt)
+			if !ok {
+				return true
+			}
+			u, ok := es.X.(*ast.UnaryExpr)
+			if !ok || u.Op != token.ARROW {
+				return true
+			}
+			call, ok := u.X.(*ast.CallExpr)
+			if !ok {
+				return true
+			}
+			sel, ok := call.Fun.(*ast.SelectorExpr)
+			if !ok || sel.Sel.Name != "Done" {
+				return true
+			}
+			if id, ok := sel.X.(*ast.Ident); !ok || id.Name != "ctx" {
+				return true
+			}
+			found++
+			for _, st := range cc.Body {
+				ast.Inspect(st, func(x ast.Node) bool {
+					switch y := x.(type) {
+					case *ast.CommClause:
+						if y.Comm != nil {
+							switch cm := y.Comm.(type) {
+							case *ast.ExprStmt:
+								if ch := recvChan(cm.X); ch != "" {
+									out = append(out, ch)
+								}
+							case *ast.AssignStmt:
+								if len(cm.Rhs) == 1 {
+									if ch := recvChan(cm.Rhs[0]); ch != "" {
+										out = append(out, ch)
+									}
+								}
+							}
+						}
+						return false
+					case *ast.ExprStmt:
+						if ch := recvChan(y.X); ch != "" {
+							out = append(out, ch)
+						}
+					}
+					return true
+				})
+			}
+			return false
+		})
+	}
+	if found != 1 {
+		return nil, fmt.Errorf("%s: expected exactly one `case <-ctx.Done():` in doDial, found %d", file, found)
+	}
+	return out, nil
 }
